@@ -45,6 +45,25 @@ type c09Event struct {
 	start bool
 }
 
+type c09Inner struct{ Depth int }
+type c09StructA struct {
+	Name  string
+	Count int
+	Tags  []string
+}
+type c09StructB struct {
+	Count int
+	Title string
+	Name  string
+	Inner c09Inner
+}
+type c09StructC struct {
+	UnitPrice float64
+	Title     string
+	Inner     *c09Inner
+	Tags      []string
+}
+
 func init() {
 	fw.Register(&fw.Prop{
 		ID:    "C09",
@@ -117,6 +136,10 @@ func init() {
 				menu = append(menu, opT{op: c08Op{kind: "js", file: f}}, opT{op: c08Op{kind: "js", file: f, es6: true, msgs: true}}, opT{op: c08Op{kind: "js", file: f, viaGen: true}})
 			}
 			menu = append(menu, opT{kind: 1}, opT{kind: 2, expr: exprs[r.Intn(len(exprs))]}, opT{kind: 3})
+			// Tofu.Render with Go structs of three different types as data (converted anew by every render)
+			for rep := 0; rep < 3; rep++ {
+				menu = append(menu, opT{kind: 4, expr: "A"}, opT{kind: 4, expr: "B"}, opT{kind: 4, expr: "C"})
+			}
 			// one globals map handed to many independent bundles, each of which adds globals of its own afterwards
 			sharedGlobals := toDataMap(prog2.B.Globals)
 			if sharedGlobals == nil {
@@ -125,6 +148,12 @@ func init() {
 			sharedGlobals["verif.SHARED"] = data.Int(1)
 			sharedBefore := len(sharedGlobals)
 			var ownSeq int64
+			var structOps []int
+			for k, o := range menu {
+				if o.kind == 4 {
+					structOps = append(structOps, k)
+				}
+			}
 			cold, err := newWorld(files, prog.B.Globals, datas, prog.IJ)
 			if err != nil {
 				return fw.Result{Verdict: fw.Skip}
@@ -134,6 +163,19 @@ func init() {
 				case 1:
 					_, err := compileRegistry(files2, prog2.B.Globals)
 					return "compile:" + errClass(err)
+				case 4:
+					var obj interface{}
+					switch o.expr {
+					case "A":
+						obj = c09StructA{Name: "anna", Count: 3, Tags: []string{"x", "y"}}
+					case "B":
+						obj = &c09StructB{Count: 7, Title: "t<b>", Name: "bob", Inner: c09Inner{Depth: 2}}
+					default:
+						obj = c09StructC{UnitPrice: 2.5, Title: "c", Inner: &c09Inner{Depth: 9}, Tags: []string{"z"}}
+					}
+					var buf bytes.Buffer
+					err := w.tofu.Render(&buf, "pr.structshow", obj)
+					return errClass(err) + ":" + buf.String()
 				case 3:
 					b := soy.NewBundle().AddGlobalsMap(sharedGlobals).AddGlobalsMap(data.Map{fmt.Sprintf("verif.OWN_%d", atomic.AddInt64(&ownSeq, 1)): data.Int(2)})
 					for _, f := range files2 {
@@ -180,7 +222,10 @@ func init() {
 			for g := 0; g < G; g++ {
 				plans[g] = make([]int, R)
 				for k := range plans[g] {
-					if r.P(1, 2) {
+					if i%4 == 1 && r.P(3, 4) {
+						// a stanza that is mostly Tofu.Render over Go structs of different types
+						plans[g][k] = structOps[r.Intn(len(structOps))]
+					} else if r.P(1, 2) {
 						plans[g][k] = r.Intn(len(menu))
 					} else {
 						plans[g][k] = r.Intn(minInt(len(menu), 4)) // contention on few templates
